@@ -626,28 +626,37 @@ func c16WithBuff(c *Ctx, fn *ssa.Function) {
 		if !ok {
 			continue
 		}
-		n++
-		key := fmt.Sprintf("withbuff-return#%d", n)
-		pos := c.P.Pos(ret.Pos())
-		if ret.Results[0] == ssa.Value(buff) {
-			ok2, cex := q.Holds(q.StateAt(ret), A.Lit(errKey))
-			R.Check(ok2, "C16.R4", key, name+": return &buff", pos, "the filled buffer is returned only when sanitize returned nil", "the (partially) filled buffer can be returned although sanitize failed ["+cex+"]")
-			continue
-		}
-		if a, ok := ret.Results[0].(*ssa.Alloc); ok && a != buff {
-			// fresh buffer: must have no writes
-			clean := true
-			for _, r := range *a.Referrers() {
-				if r != ssa.Instruction(ret) {
-					if _, isDbg := r.(*ssa.DebugRef); !isDbg {
+		for _, lf := range returnLeaves(q, ret) {
+			n++
+			key := fmt.Sprintf("withbuff-return#%d", n)
+			pos := c.P.Pos(ret.Pos())
+			if lf.v == ssa.Value(buff) {
+				ok2, cex := q.Holds(lf.st, A.Lit(errKey))
+				R.Check(ok2, "C16.R4", key, name+": return &buff", pos, "the filled buffer is returned only when sanitize returned nil", "the (partially) filled buffer can be returned although sanitize failed ["+cex+"]")
+				continue
+			}
+			if a, ok := lf.v.(*ssa.Alloc); ok && a != buff {
+				// fresh buffer: must have no writes
+				clean := true
+				for _, r := range *a.Referrers() {
+					if r == ssa.Instruction(ret) {
+						continue
+					}
+					switch x := r.(type) {
+					case *ssa.DebugRef:
+					case *ssa.Phi:
+						if ret.Results[0] != ssa.Value(x) {
+							clean = false
+						}
+					default:
 						clean = false
 					}
 				}
+				R.Check(clean, "C16.R4", key, name+": return &bytes.Buffer{}", pos, "fresh, untouched buffer", "the buffer returned on error has other uses")
+				continue
 			}
-			R.Check(clean, "C16.R4", key, name+": return &bytes.Buffer{}", pos, "fresh, untouched buffer", "the buffer returned on error has other uses")
-			continue
+			R.Fail("C16.R4", key, name+": return", pos, "returns neither the destination buffer nor a fresh empty one")
 		}
-		R.Fail("C16.R4", key, name+": return", pos, "returns neither the destination buffer nor a fresh empty one")
 	}
 	R.Role("C16.R4", "returns of sanitizeWithBuff", n, 2)
 }
